@@ -17,7 +17,7 @@ import (
 func init() {
 	register("C14",
 		"the effect of arbitrary Fix strings (run-time data; only the built-in literal is checked, AX-HOLIDAY-RUNTIME: strings passed to Fix are well-formed 18-byte records); the exact count of working days passed by the walk.",
-		r14_1, r14_2, r14_3, r14_4, r14_5, r14_6, r14_7)
+		r14_1, r14_2, r14_3, r14_4, r14_5, r14_6, r14_7, r14_8)
 }
 
 var recRe = regexp.MustCompile(`^(\d{4})(\d{2})(\d{2})(\d)(\d)(\d{4})(\d{2})(\d{2})$`)
@@ -773,7 +773,7 @@ func r14_5(c *Ctx, r *Report) {
 // R14.7: what Fix queues for insertion.
 func r14_7(c *Ctx, r *Report) {
 	const rule = "R14.7"
-	r.rule(rule, "Fix queues for insertion only what is to be added. Wherever Fix (or a helper of it) concatenates a whole record segment of its argument (dt[:size]) onto a string — the records waiting to be inserted at their sorted position — two things are known to hold there (E13 branch facts: dominating conditions with their polarity, boolean helpers expanded): the day has no record yet (the result of GetHoliday for the segment's day compared equal to nil), and the segment is not a removal (its marker character compared with tag_remove came out unequal). A removal segment for an unrecorded day that is queued ends up in the table as a record whose name character is the marker: every view that decodes it then indexes the name table out of range.")
+	r.rule(rule, "Fix queues for insertion only what is to be added. Wherever Fix (or a helper of it) concatenates a whole record segment of its argument (dt[:size]) onto a string, or writes it to a strings.Builder — the records waiting to be inserted at their sorted position — two things are known to hold there (E13 branch facts: dominating conditions with their polarity, boolean helpers expanded): the day has no record yet (the result of GetHoliday for the segment's day compared equal to nil), and the segment is not a removal (its marker character compared with tag_remove came out unequal). A removal segment for an unrecorded day that is queued ends up in the table as a record whose name character is the marker: every view that decodes it then indexes the name table out of range.")
 	fn := c.Fn(r, rule, "HolidayUtil.Fix")
 	size, okS := c.tables.Var("HolidayUtil", "size")
 	tag, okT := c.tabStr(r, rule, "HolidayUtil", "tag_remove")
@@ -785,8 +785,20 @@ func r14_7(c *Ctx, r *Report) {
 	for _, fr := range helperTree(c, fn, stop) {
 		for _, b := range fr.fn.Blocks {
 			for _, ins := range b.Instrs {
-				bo, ok := ins.(*ssa.BinOp)
-				if !ok || bo.Op != token.ADD || !isStringType(bo.Type()) {
+				// a concatenation, or a text written to a strings.Builder
+				var operands []ssa.Value
+				var sitePos token.Pos
+				switch x := ins.(type) {
+				case *ssa.BinOp:
+					if x.Op == token.ADD && isStringType(x.Type()) {
+						operands, sitePos = []ssa.Value{x.X, x.Y}, x.Pos()
+					}
+				case *ssa.Call:
+					if callee := x.Common().StaticCallee(); callee != nil && callee.String() == "(*strings.Builder).WriteString" && len(x.Common().Args) == 2 {
+						operands, sitePos = []ssa.Value{x.Common().Args[1]}, x.Pos()
+					}
+				}
+				if len(operands) == 0 {
 					continue
 				}
 				isSeg := func(v ssa.Value) bool {
@@ -836,7 +848,13 @@ func r14_7(c *Ctx, r *Report) {
 					}
 					return fromParam(fr, sl.X)
 				}
-				if !isSeg(bo.X) && !isSeg(bo.Y) {
+				anySeg := false
+				for _, o := range operands {
+					if isSeg(o) {
+						anySeg = true
+					}
+				}
+				if !anySeg {
 					continue
 				}
 				n++
@@ -877,7 +895,7 @@ func r14_7(c *Ctx, r *Report) {
 						}
 					}
 				}
-				r.check(absent && notRemoval, rule, fmt.Sprintf("%s queues a segment only for an unrecorded day that is not being removed", fname(fr.fn)), c.pos(bo.Pos()), fmt.Sprintf("known at the concatenation: %v", seen))
+				r.check(absent && notRemoval, rule, fmt.Sprintf("%s queues a segment only for an unrecorded day that is not being removed", fname(fr.fn)), c.pos(sitePos), fmt.Sprintf("known at the concatenation: %v", seen))
 			}
 		}
 	}
